@@ -44,11 +44,16 @@ from . import c06 as _v
 
 PID = "C20"
 
-HISTORY_POOL = ["a eq 1 and contains(b/c, 'x')", "a eq", "a eq ) 1", "a eq #", "nosuch(1)", "length(1, 2)"]
+HISTORY_POOL = ["a eq 1 and contains(b/c, 'x')", "a eq", "a eq ) 1", "a eq #", "nosuch(1)", "length(1, 2)",
+                # paths of three and more segments: plain, as lambda owner, and in inputs that fail *after* the path was reduced
+                "a/b/c eq 1", "a/b/c/any(x: x/p/q gt 1) and", "f(a/b/c/d) eq"]
 PROBES = ["a eq 1 and contains(b/c, 'x')", "a/any(x: x/k gt 1) or not (b in (1, 2))", "a eq", "(a", "a eq #", "nosuch(1)",
-          "length(1, 2)", "", "geo.distance(p, geography'SRID=0;Point(1 2)') lt 5"]
-ALIAS_MAPS = [{"a": "b/c"}, {"a": "b/c", "x/y": "tolower(z)", "n": "m"}, {}]
+          "length(1, 2)", "", "geo.distance(p, geography'SRID=0;Point(1 2)') lt 5",
+          "a/b/c eq 1", "a/b/c/d ne a/b/c", "a/b/c/any(x: x/p/q gt 1)", "f(a/b/c) eq a/b/c/d", "ns.f(p=1, q=a/b/c, r='s')"]
+ALIAS_MAPS = [{"a": "b/c"}, {"a": "b/c", "x/y": "tolower(z)", "n": "m"}, {}, {"a": "b/c/d", "x/y": "b/c/d", "n": "b/c/d/e"}]
 REWRITE_INPUTS = ["a eq 1", "x/y eq n or f(a) gt a/k", "items/any(a: a/n eq n)"]
+# sub-expressions that are written twice inside one filter must decode identically both times
+REPEATED = ["a/b/c", "a/b/c/d", "a/b/c/any(x: x/p/q gt 1)", "ns.f(a/b/c, 'x')", "ns.f(p=1, q=2, r=3)", "(1, 2, 3)", "a/b"]
 
 
 class _Quiet(Run):
@@ -183,6 +188,43 @@ def step(probe: int, *values: Any) -> bool:
     return same(fresh_outcome(PROBES[probe]), outcome(lx, ps, PROBES[probe]))
 
 
+def _pick_text(pool: Sequence[str], i: int) -> str:
+    """explicit branching: the text stays concrete on every CrossHair path"""
+    for k in range(len(pool)):
+        if i == k:
+            return pool[k]
+    return pool[0]
+
+
+def twice(i: int, j: int) -> bool:
+    """one lexer / parser pair parses probe i, probe j and probe i again (j == i included): every outcome equals a fresh
+    pair's.  Covers state that is not an instance attribute (caches keyed by instance or by value, module globals)."""
+    lx, ps = ODataLexer(), ODataParser()
+    for n in (i, j, i):
+        text = _pick_text(PROBES, n)
+        if not same(fresh_outcome(text), outcome(lx, ps, text)):
+            return False
+    return True
+
+
+def repeated(i: int, j: int) -> bool:
+    """`X eq X` (and `X eq Y`): an expression written twice inside one filter decodes identically at both places, and each
+    side equals what it decodes to on its own (fresh pair)"""
+    x, y = _pick_text(REPEATED, i), _pick_text(REPEATED, j)
+    got = outcome(ODataLexer(), ODataParser(), x + " eq " + y)
+    if got[0] != "node" or got[1][0] != "Compare":
+        return False
+    return same(FRESH_SINGLE[x], got[1][2]) and same(FRESH_SINGLE[y], got[1][3])
+
+
+FRESH_SINGLE: Dict[str, Any] = {}
+
+
+def expected_replacements(mp: dict) -> list:
+    """every key / value of an alias map parsed by its own fresh pair"""
+    return [(fresh_outcome(k)[1], fresh_outcome(v)[1]) for k, v in mp.items()]
+
+
 def _rewriter_result(mp: dict, lx: Any, ps: Any, text: str) -> tuple:
     try:
         rw = AliasRewriter(mp, lx, ps)
@@ -237,6 +279,27 @@ def history_differences(max_len: int = 3, limit: int = 5) -> List[dict]:
     return diffs
 
 
+def rewriter_differences() -> List[dict]:
+    """AliasRewriter with fresh, default and used instances: replacements == every key / value parsed by its own fresh pair"""
+    diffs = []
+    for mp in ALIAS_MAPS:
+        want = expected_replacements(mp)
+        configs = [("default instances", None, None), ("fresh instances", ODataLexer(), ODataParser())]
+        for h in HISTORY_POOL:
+            lx, ps = ODataLexer(), ODataParser()
+            outcome(lx, ps, h)
+            configs.append((f"instances used for {h!r}", lx, ps))
+        for label, lx, ps in configs:
+            try:
+                rw = AliasRewriter(mp, lx, ps)
+                got = [(gen.decode(k), gen.decode(v)) for k, v in rw.replacements.items()]
+            except Exception as e:  # noqa: BLE001
+                got = [("exception", type(e).__name__, str(e))]
+            if got != want:
+                diffs.append({"alias_map": mp, "instances": label, "replacements": got, "expected": want})
+    return diffs[:5]
+
+
 def interleaving_differences() -> List[dict]:
     """two pairs used alternately (and a lexer shared by two parsers) against fresh pairs"""
     diffs = []
@@ -280,10 +343,15 @@ else:
     import odata_query.grammar as g
 from verif.props.c20 import class_state
 from odata_query.grammar import ODataLexer, ODataParser
+from odata_query.roundtrip import AstToODataVisitor
 probe = []
-for text in ["a eq 1 and contains(b/c, 'x')", "a eq", "nosuch(1)", "a/any(x: x/k gt 1) or not (b in (1, 2))"]:
+for text in ["a eq 1 and contains(b/c, 'x')", "a eq", "nosuch(1)", "a/any(x: x/k gt 1) or not (b in (1, 2))",
+             "ns.f(p=1, q=2)", "ns.f(p=1, q='s', r=a)", "ns.f(alpha=1, beta=2, gamma=3, delta=4, epsilon=5)", "a in ('x', 'y', 'z', 'w')",
+             "concat(tolower(a), substring(b, 1, 2)) eq 'x'", "a/b/all(x: x/k in (1, 2, 3) and ns.g(u=x, v=1))",
+             "(1, (2, 3), 'a') eq b", "a/b/c/d eq a/b/c"]:
     try:
-        probe.append(repr(ODataParser().parse(ODataLexer().tokenize(text))))
+        tree = ODataParser().parse(ODataLexer().tokenize(text))
+        probe.append([repr(tree), AstToODataVisitor().visit(tree)])
     except Exception as e:
         probe.append(type(e).__name__ + ": " + str(e))
 print(json.dumps({"state": class_state(), "probe": probe}))
@@ -321,7 +389,7 @@ def seed_sweep(run: Run) -> None:
                                                 "how_to_replay": f"PYTHONHASHSEED={seed} python -c 'import odata_query.grammar' ({order}) and compare the tables"},
                           f"the generated {which} differ between hash seeds / import orders ({name})", "hash-seed-sweep(concrete)")
             continue
-        run.discharged(f"hash-seed:{name}: tables, function table, precedence and 4 probe parses identical", "hash-seed-sweep(concrete)",
+        run.discharged(f"hash-seed:{name}: tables, function table, precedence, 12 probe ASTs and their roundtrip renderings identical", "hash-seed-sweep(concrete)",
                        nontrivial=False)
     run.extra["hash_seed_sweep(finite configuration sweep, not a solver verdict)"] = {"configurations": len(procs), "distinct_digests": digests}
 
@@ -332,7 +400,7 @@ def _root():
 
 
 # ---------------------------------------------------------------- main
-HEADER = "from typing import List\nfrom verif.props.c20 import step, rewriter_step\n"
+HEADER = "from typing import List\nfrom verif.props.c20 import step, rewriter_step, twice, repeated\n"
 
 
 def _items() -> List[Item]:
@@ -356,6 +424,15 @@ def _items() -> List[Item]:
         for ti in range(len(REWRITE_INPUTS)):
             items.append(Item(f"rewriter_{mi}_{ti}", sig, pre, f"rewriter_step({mi}, {ti}, {args})", family="rewriter-stale-instances",
                               describe=f"AliasRewriter({ALIAS_MAPS[mi]!r}, stale lexer, stale parser) on {REWRITE_INPUTS[ti]!r} == with fresh instances"))
+    npr = len(PROBES)
+    for i in range(npr):
+        items.append(Item(f"twice_{i}", "x0: int", f"0 <= x0 < {npr}", f"twice({i}, x0)", family="same-instance-sequence",
+                          describe=f"one pair parses {PROBES[i]!r}, a symbolic pick of the {npr} probes, and {PROBES[i]!r} again: "
+                                   "each outcome == fresh pair"))
+    nr = len(REPEATED)
+    for i in range(nr):
+        items.append(Item(f"repeated_{i}", "x0: int", f"0 <= x0 < {nr}", f"repeated({i}, x0)", family="repeat-within-filter",
+                          describe=f"{REPEATED[i]!r} eq <symbolic pick of {REPEATED}>: both sides decode as they do on their own"))
     return items
 
 
@@ -365,6 +442,8 @@ def precompute() -> None:
     runs twice on one path)"""
     for t in PROBES:
         fresh_outcome(t)
+    for x in REPEATED:
+        FRESH_SINGLE[x] = outcome(ODataLexer(), ODataParser(), x)[1]
     for mi in range(len(ALIAS_MAPS)):
         for ti in range(len(REWRITE_INPUTS)):
             FRESH_REWRITE[(mi, ti)] = _rewriter_result(ALIAS_MAPS[mi], None, None, REWRITE_INPUTS[ti])
@@ -407,7 +486,7 @@ def main() -> int:
     inter = interleaving_differences()
     for o in sub.obls:
         if o["status"] == "violation":
-            if diffs or inter:
+            if diffs or inter or o["family"] in ("same-instance-sequence", "repeat-within-filter"):
                 run.violation(o["name"], o["detail"]["witness"], o["detail"]["what"] + " (a concrete history reproduces a difference, "
                               "see the history-sweep violations)", o["family"], o["solver_s"])
             else:
@@ -426,6 +505,16 @@ def main() -> int:
                           "history-sweep(concrete)")
     else:
         run.discharged(f"history-sweep: {n_hist} histories x {len(PROBES)} probes, used pair == fresh pair", "history-sweep(concrete)", nontrivial=False)
+    rdiffs = rewriter_differences()
+    if rdiffs:
+        for d in rdiffs:
+            run.violation(f"rewriter:{d['alias_map']}|{d['instances']}", {**d, "how_to_replay": "AliasRewriter(alias_map, lexer, parser).replacements "
+                                                                          "vs parsing every key / value with its own fresh pair"},
+                          f"AliasRewriter({d['alias_map']!r}) with {d['instances']} builds replacements that differ from the aliases parsed on their own",
+                          "history-sweep(concrete)")
+    else:
+        run.discharged(f"rewriter-sweep: {len(ALIAS_MAPS)} alias maps x (default, fresh, {len(HISTORY_POOL)} used) instances == per-alias fresh parses",
+                       "history-sweep(concrete)", nontrivial=False)
     if inter:
         for d in inter:
             run.violation(f"interleaving:{d['interleaving']}", d, f"interleaved / crossed instances change the outcome of {d['text']!r}",
